@@ -48,6 +48,11 @@ def setup() -> int:
     """Build everything the claimed checks need: regenerate Gen/*.v, full .vo build of every
     property file listed by a check of MANIFEST.json (and what it depends on), hygiene scan."""
     t0 = time.time()
+    with C.CoqLock():
+        return _setup(t0)
+
+
+def _setup(t0) -> int:
     import pkgutil
     import translate
     for m in pkgutil.iter_modules(translate.__path__):
@@ -106,13 +111,14 @@ def decide(mod, ctx) -> int:
     broken: list[str] = []           # broken obligations (names)
     # 1. translators + hygiene (of everything the property files depend on; ./check --setup scans all)
     prop_files = getattr(mod, 'PROP_FILES', [f'Props/{prop}.v'])
-    broken += run_translators(mod, ctx)
-    bad = C.hygiene_scan(prop_files)
-    if bad:
-        broken += [f'hygiene:{b}' for b in bad]
-    # 2. proofs
-    targets = [f'theories/{f}o' for f in prop_files]
-    ok, log = C.coq_make(targets, timeout=1800)
+    with C.CoqLock():        # translators + build under ONE lock: nobody regenerates Gen/*.v in between
+        broken += run_translators(mod, ctx)
+        bad = C.hygiene_scan(prop_files)
+        if bad:
+            broken += [f'hygiene:{b}' for b in bad]
+        # 2. proofs
+        targets = [f'theories/{f}o' for f in prop_files]
+        ok, log = C.coq_make(targets, timeout=1800)
     thms: list[str] = []
     for f in prop_files:
         thms += [f'{f}:{t}' for t in C.theorems_in(f)]
